@@ -4,5 +4,6 @@ From TV Require Import Gen.C04_Sites Model.C04_SitesExpected.
 
 Lemma sites_as_expected :
   hash_sites = expected_hash_sites /\ guard_sites = expected_guard_sites /\
-  server_hello_sites = expected_server_hello_sites /\ guard_positions = expected_guard_positions.
+  server_hello_sites = expected_server_hello_sites /\ guard_positions = expected_guard_positions /\
+  client_hello_sites = expected_client_hello_sites /\ client_suite_sites = expected_client_suite_sites.
 Proof. vm_compute. repeat split; reflexivity. Qed.
